@@ -144,6 +144,37 @@ def run(ctx):
             kind = 'set' if (i // coll_every) % 2 == 0 else 'map'
             cases.append(('lit', kind, t, (a, b)))
             cases.append(('ins', kind, t, (a, b)))
+    # text twins: the same base58 texts compared as `string`s right before and after they are compared as address / key / key_hash /
+    # signature / chain_id — the typed order is by kind and bytes, the string order by code points, and the Python objects of both
+    # compare and hash equal by their text: a result remembered per text (a memo keyed by value) would leak from one type to the other
+    TEXT = ('address', 'key', 'key_hash', 'signature', 'chain_id')
+
+    def has_text(t):
+        return t in TEXT if isinstance(t, str) else any(has_text(x) for x in t[1:])
+
+    def textify_t(t):
+        return ('string' if t in TEXT else t) if isinstance(t, str) else (t[0],) + tuple(textify_t(x) for x in t[1:])
+
+    def textify_v(v):
+        if v[0] in ('kh', 'addr', 'key', 'sig', 'cid'):
+            return ('str', G.to_micheline(v)['string'])
+        if v[0] in ('some', 'left', 'right'):
+            return (v[0], textify_v(v[1]))
+        if v[0] == 'pair':
+            return ('pair', textify_v(v[1]), textify_v(v[2]))
+        return v
+    n_twins = 0
+    for i in range(400 if quick else 6000):
+        t = rng.choice(TEXT) if i % 3 else gen_ty(rng, 2)
+        if not has_text(t):
+            continue
+        a, b = G.gen_pair(rng, t)
+        ts, sa, sb = textify_t(t), textify_v(a), textify_v(b)
+        order = [(ts, sa, sb), (t, a, b), (ts, sb, sa), (t, b, a)] if i % 2 else [(t, a, b), (ts, sa, sb), (t, b, a), (ts, sb, sa)]
+        for (tt, x, y) in order:
+            cases.append(('cmp', '', tt, (x, y)))
+        n_twins += 1
+    ctx.hist.setdefault('text_twins', {})['pairs'] = n_twins
     for i in range(n_triples):
         t = gen_ty(rng, 3)
         tr = G.gen_triple(rng, t)
